@@ -104,7 +104,32 @@ func spkiMutant(r *gen.Rng, pt []byte) ([]byte, string) {
 		}
 		return out
 	}
-	switch r.Intn(29) {
+	switch r.Intn(31) {
+	case 29, 30:
+		// the BIT STRING holds the point inside ANOTHER wrapper other formats use for it:
+		// a DER OCTET STRING (PKCS #11 CKA_EC_POINT, X9.62 ECPoint), a nested BIT STRING,
+		// the [1] field of an ECPrivateKey, a whole SubjectPublicKeyInfo, a SEQUENCE
+		valid := pt
+		if P, err := oracle.DecodePoint(pt); err != nil || P.Inf {
+			valid = oracle.EncodeUncompressed(oracle.G())
+			if r.Bool() {
+				valid = oracle.EncodeCompressed(oracle.G())
+			}
+		}
+		var inner []byte
+		switch r.Intn(6) {
+		case 0, 1:
+			inner = tlv(0x04, valid)
+		case 2:
+			inner = bits(0, valid)
+		case 3:
+			inner = tlv(0xa1, bits(0, valid))
+		case 4:
+			inner = tlv(0x30, append(alg(oidA, oidC, nil), bits(0, valid)...))
+		default:
+			inner = tlv(0x30, valid)
+		}
+		return tlv(0x30, append(alg(oidA, oidC, nil), bits(0, inner)...)), "point-inside-another-wrapper"
 	case 26, 27, 28:
 		// the exact header of ONE well-formed key followed by the body of ANOTHER form: the
 		// length octets no longer match what follows (a prefix fast path that skips the
@@ -171,6 +196,21 @@ func spkiMutant(r *gen.Rng, pt []byte) ([]byte, string) {
 		return tlv(0x30, append(alg(oidA, c2, nil), bits(0, pt)...)), "wrong-curve-oid"
 	case 12:
 		a2 := gen.Pick(r, []byte{0x2a, 0x86, 0x48, 0xce, 0x3d, 0x02, 0x02}, []byte{0x2a, 0x86, 0x48, 0x86, 0xf7, 0x0d, 0x01, 0x01, 0x01}, []byte{0x2b, 0x65, 0x70})
+		if r.Chance(2, 3) {
+			// the other identifiers of the elliptic-curve family (RFC 5480 restricted
+			// algorithms id-ecDH / id-ecMQV and their neighbours, ECDSA signature
+			// algorithms, X9.42 DH, DSA, the Edwards / Montgomery key types), prefixes and
+			// extensions of id-ecPublicKey, and the curve identifier itself
+			a2 = gen.Pick(r,
+				[]byte{0x2b, 0x81, 0x04, 0x01, 0x0c}, []byte{0x2b, 0x81, 0x04, 0x01, 0x0d}, []byte{0x2b, 0x81, 0x04, 0x01, 0x0b}, []byte{0x2b, 0x81, 0x04, 0x01, 0x0e},
+				[]byte{0x2a, 0x86, 0x48, 0xce, 0x3d, 0x04, 0x03, 0x02}, []byte{0x2a, 0x86, 0x48, 0xce, 0x3d, 0x04, 0x01}, []byte{0x2a, 0x86, 0x48, 0xce, 0x3d, 0x02},
+				[]byte{0x2a, 0x86, 0x48, 0xce, 0x3d, 0x02, 0x01, 0x01}, []byte{0x2a, 0x86, 0x48, 0xce, 0x3d, 0x01, 0x01}, []byte{0x2a, 0x86, 0x48, 0xce, 0x3e, 0x02, 0x01},
+				[]byte{0x2a, 0x86, 0x48, 0xce, 0x38, 0x04, 0x01}, []byte{0x2b, 0x65, 0x6e}, []byte{0x2b, 0x65, 0x71}, oidC,
+				[]byte{0x2a, 0x86, 0x48, 0xce, 0x3d, 0x02, byte(r.Intn(128))}, append([]byte{0x2b, 0x81, 0x04, 0x01}, byte(r.Intn(128))))
+			if bytes.Equal(a2, oidA) {
+				a2 = []byte{0x2b, 0x81, 0x04, 0x01, 0x0c}
+			}
+		}
 		return tlv(0x30, append(alg(a2, oidC, nil), bits(0, pt)...)), "wrong-algorithm-oid"
 	case 13:
 		return tlv(0x30, append(alg(oidC, oidA, nil), bits(0, pt)...)), "oids-swapped"
@@ -215,7 +255,7 @@ func runC12(r *mon.Run) {
 	for _, c := range []string{"c12:der:canonical", "c12:der:seq-long-form-length", "c12:der:indefinite-length", "c12:der:r-leading-zero", "c12:der:negative-r", "c12:der:trailing-inside-seq",
 		"c12:der:trailing-outside-seq", "c12:der:wrong-seq-tag", "c12:der:zero-length-int", "c12:der:33-byte-int", "c12:der:accept", "c12:der:reject:range", "c12:der:reject:structure",
 		"c12:compact:accept", "c12:compact:reject", "c12:bip66:accept", "c12:bip66:reject", "c12:spki:accept", "c12:spki:reject", "c12:spki:unused-bits-shifted", "c12:spki:canonical",
-		"c12:spki:compressed-point", "c12:spki:identity-point", "c12:build:zero-scalar"} {
+		"c12:spki:compressed-point", "c12:spki:identity-point", "c12:spki:point-inside-another-wrapper", "c12:spki:wrong-algorithm-oid", "c12:build:zero-scalar"} {
 		r.Require(c)
 	}
 	var mu sync.Mutex
